@@ -98,3 +98,29 @@ def rel_close(a, b, scale):
 
 def ceil_div(a, b):
     return int(math.ceil(a / b))
+
+
+class Hang(BaseException):  # not an Exception: must not be swallowed by handlers around scheduler calls
+    pass
+
+
+class watchdog:
+    """`with watchdog(60): ...` raises Hang in the main thread if the block runs longer than the given number
+    of seconds (a scheduler call that never returns must become a reported failure, not a hanging check)."""
+
+    def __init__(self, seconds):
+        self.seconds = seconds
+
+    def _fire(self, signum, frame):
+        raise Hang("no answer within %d s" % self.seconds)
+
+    def __enter__(self):
+        import signal
+        self.old = signal.signal(signal.SIGALRM, self._fire)
+        signal.alarm(self.seconds)
+
+    def __exit__(self, *a):
+        import signal
+        signal.alarm(0)
+        signal.signal(signal.SIGALRM, self.old)
+        return False
